@@ -156,6 +156,49 @@ int main(int argc, char** argv) {
           }
         d.flush();
       }
+    // long encodings (more than 2^16 and 2^17 symbols): a padding symbol in the last positions of a group that is NOT the
+    // last one - in particular groups 2^8, 2^12, 2^15, 2^16, 2^17 symbols before the last - must be rejected; only the
+    // positions, the length and the outcomes are logged (the specification needs no more to know that these are invalid)
+    for (int a = 0; a < 2; a++)
+      for (size_t nbytes : {(size_t)49155, (size_t)98310}) {
+        if (quick && nbytes > 50000 && a == 1) continue;
+        string raw(nbytes, 0);
+        for (size_t i = 0; i < nbytes; i++) raw[i] = (char)((i * 131 + 7 + a) & 0xFF);
+        string enc = base64_encode(raw, alph_of(a));
+        size_t L = enc.size();
+        bool base_ok = false;
+        try {
+          base_ok = base64_decode(enc, alph_of(a)) == raw;
+        } catch (const exception&) {
+        }
+        vector<long> poss, outs;
+        vector<size_t> groups;
+        for (size_t dist : {(size_t)256, (size_t)4096, (size_t)32768, (size_t)65536, (size_t)131072, (size_t)4, (size_t)8})
+          if (L >= 4 + dist) groups.push_back(L - 4 - dist);
+        for (int k = 0; k < 12; k++) groups.push_back(4 * r.below((L - 4) / 4));
+        for (size_t g : groups)
+          for (size_t off : {(size_t)3, (size_t)2}) {
+            // '=' in the last position, or in the last two positions, of group g
+            string t = enc;
+            t[g + 3] = '=';
+            if (off == 2) t[g + 2] = '=';
+            long out = 0;
+            try {
+              base64_decode(t, alph_of(a));
+            } catch (const invalid_argument&) {
+              out = 1;
+            } catch (const exception&) {
+              out = 2;
+            }
+            poss.push_back((long)(g + off));
+            outs.push_back(out);
+          }
+        vt::J j;
+        j.str("e", "declong").num("alph", a).num("len", (long long)L).num("base_ok", base_ok).ints("pos", poss).ints("outs", outs);
+        tr.emit(j);
+        tr.events += poss.size();
+        tr.nontrivial("declong" + to_string(a) + to_string(nbytes));
+      }
     // single-symbol corruptions of valid encodings at every position, alternating alphabets per text
     for (int i = 0; i < (quick ? 60 : 200); i++) {
       string raw;
